@@ -56,6 +56,7 @@ type FuncContract struct {
 	Line      int
 	File      string
 	SafetyOff bool
+	Aliases   map[string][2]string // contract name -> (argN, program point): the local variable passed there
 	Nilable   map[string]bool // pointer parameters that may be nil
 	Covers    [][2]string // (callee short name, label): every call point must carry an assert with the label
 	Unchecked map[string]string
@@ -313,6 +314,17 @@ func (db *ContractDB) loadFile(path string, extern bool) error {
 			return fmt.Errorf("%s:%d: clause outside func block: %s", path, ln, t)
 		case word == "tags":
 			cur.Tags = append(cur.Tags, strings.Fields(rest)...)
+		case word == "alias":
+			// alias p := arg0@call:append#1  -- `p` in this contract denotes the local
+			// variable that is passed as that argument, whatever it is called now
+			m := regexp.MustCompile(`^(\w+)\s*:=\s*(arg\d+)@(\S+)$`).FindStringSubmatch(rest)
+			if m == nil {
+				return fmt.Errorf("%s:%d: bad alias", path, ln)
+			}
+			if cur.Aliases == nil {
+				cur.Aliases = map[string][2]string{}
+			}
+			cur.Aliases[m[1]] = [2]string{m[2], m[3]}
 		case word == "nilable":
 			if cur.Nilable == nil {
 				cur.Nilable = map[string]bool{}
